@@ -215,10 +215,10 @@ class Project:
         """*func* with `for x in helper(..): body` over project generator helpers replaced by the helper's own loop with the body in
         place of its `yield` (see inline_generators): receive loops, leaf iterators and ancestor walks may live in a helper.
         Generators named in *keep* are left alone.  Cached per function."""
-        key = (func.qual, tuple(sorted(keep)))
+        key = (func.qual, tuple(sorted(keep)), id(func.node))
         hit = self._spliced.get(key)
         if hit is not None:
-            return hit
+            return hit[1]
         out = func
         if func.module.kind == "py" and any(isinstance(n, ast.For) for n in own_nodes(func.node)):
             try:
@@ -230,7 +230,7 @@ class Project:
                 out = inline_generators(self, func, resolve, depth=2)
             except Exception:
                 out = func
-        self._spliced[key] = out
+        self._spliced[key] = (func, out)          # *func* is kept alive: the key holds the id of its node
         return out
 
     def _link_inherited(self):
@@ -556,6 +556,7 @@ def inline_helpers(project, func, resolve, depth=2):
     helper's statements are preserved, so CFG-based rules see one function."""
     import copy
     counter = [0]
+    extern = dict(getattr(func, "extern", {}) or {})       # global names of spliced statements -> the module they were written in
 
     def splice(stmts, owner, d):
         out = []
@@ -597,6 +598,10 @@ def inline_helpers(project, func, resolve, depth=2):
                                 ok = False
                     if ok:
                         counter[0] += 1
+                        if g.module is not func.module:
+                            for n_ in own_nodes(g.node):
+                                if isinstance(n_, ast.Name) and isinstance(n_.ctx, ast.Load):
+                                    extern.setdefault(n_.id, g.module.name)
                         pre = "_%s_%d__" % (g.node.name.strip("_"), counter[0])
                         mapping = {nm: pre + nm for nm in _local_names(g.node)}
                         if is_method and isinstance(bound[params[0]], ast.Name):
@@ -642,6 +647,7 @@ def inline_helpers(project, func, resolve, depth=2):
         return func
     clone = Func(func.qual, new_node, func.module, func.cls, func.parent)
     clone.inlined = counter[0]
+    clone.extern = extern
     return clone
 
 
@@ -950,4 +956,5 @@ def inline_generators(project, func, resolve, depth=1):
         return func
     clone = Func(func.qual, new_node, func.module, func.cls, func.parent)
     clone.inlined = counter[0]
+    clone.extern = dict(getattr(func, "extern", {}) or {})
     return clone
